@@ -1,5 +1,5 @@
 """property id -> rules"""
-from rules import task_constraints, tasks, optional, logic, resources, resource_constraints, completeness, indicators
+from rules import task_constraints, tasks, optional, logic, resources, resource_constraints, completeness, indicators, buffers
 from sa.selftest import self_test_rule
 
 NOTES = ("Every check decides structural clauses (necessary conditions) of its property from /repo's source as parsed on "
@@ -8,6 +8,25 @@ NOTES = ("Every check decides structural clauses (necessary conditions) of its p
 NOT_APPLICABLE = {}
 
 PROPERTIES = {
+    "C09": {
+        "rules": buffers.RULES,
+        "thorough": [self_test_rule("C09")],
+        "level_text": "Per buffer kind, the complete set of assertions the solver initialisation emits about a buffer is "
+                      "reconstructed and compared, group by group, with the documented encoding: access events are the starts of "
+                      "unloading tasks and the ends of loading tasks, sorted by the sorter of that kind and tied element-wise to "
+                      "the change times; -quantity for unloading and +quantity for loading in both the array and the quantified-"
+                      "function encoding; the recurrence level[i+1] = level[i] + delta(time[i]) over ALL i (concurrent: level kept "
+                      "on a repeated time); final level on the last level; bounds on every level. The two sorters, the "
+                      "one-time/one-level pairing per access, the registration of (task, quantity) and the reported level lists "
+                      "are checked too.",
+        "level_note": "NOT decided: that the array-store / ForAll encodings mean 'sum of the quantities at that instant' (z3 "
+                      "theory semantics) and the step function for every interleaving of simultaneous accesses (model "
+                      "checking); clean_buffer_levels' de-duplication is a runtime list operation. The unscheduled-task defect is "
+                      "reported by C06.",
+        "explanation": "Static analysis of solver.py / buffer.py / util.py / task_constraint.py on the extracted IR: exact "
+                       "group-wise comparison of the buffer assertion stream with the specification, structural rules for the "
+                       "sorters and the access registration.",
+    },
     "C08": {
         "rules": indicators.RULES,
         "thorough": [self_test_rule("C08")],
